@@ -97,6 +97,7 @@ SHAPES = [
     ('208-oversize', [208030, 1015, 208000]),
     ('221', [221003, 12001, 1001, 5001, 12001]),
     ('221-all-classes', [12001, 221007, 10, 1001, 12001, 20011, 1015, 8002, 13, 12001]),
+    ('221-class-31-keeps-data', [1001, 221003, 12001, 31021, 1002, 12001]),
     ('class-00-elements', [10, 1001, 11, 12, 12001]),
     ('zero-count', [101000, 31001, 12001, 1001]),
     ('empty-template', []),
